@@ -522,6 +522,22 @@ def corr_eval(chk, stub, cases, cfg, mechanism="evaluate"):
         if impl[0] == "v" and contains_unresolvable(impl[1]):
             chk.violation("C10:evaluate:UNRESOLVABLE-nested-in-result", "an evaluated link value contains UNRESOLVABLE",
                           {**rep, "impl": repr(impl)})
+        if nested and isinstance(expr, (dict, list)) and impl[0] == "v":
+            # nested evaluation reaches every level: a whole-string runtime expression anywhere inside the structure is
+            # replaced by what it denotes (or the entry is dropped when it denotes nothing) - it is never sent as its own text
+            def literal_left(e, r):
+                if isinstance(e, str):
+                    return e if (e.startswith(("$response.", "$request.")) and r == e) else None
+                if isinstance(e, dict) and isinstance(r, dict):
+                    return next((x for k in e if k in r for x in [literal_left(e[k], r[k])] if x), None)
+                if isinstance(e, list) and isinstance(r, list) and len(e) == len(r):
+                    return next((x for a_, b_ in zip(e, r) for x in [literal_left(a_, b_)] if x), None)
+                return None
+            left = literal_left(expr, impl[1])
+            if left is not None:
+                chk.violation("C10:evaluate:runtime-expression-inside-a-nested-structure-sent-as-its-own-text",
+                              f"nested evaluation of {expr!r} leaves the expression {left!r} in the result as a literal string",
+                              {**rep, "impl": repr(impl)})
         if isinstance(expr, str) and not any(c in expr for c in "${}"):
             # a constant: must be passed as it is
             if not (impl[0] == "v" and impl[1] == expr):
